@@ -399,6 +399,7 @@ func (f *frame) exec(entryReach string, st0 *State) {
 				o.Slow = inv.Slow
 			}
 			// 2. havoc phis and heaps, assume invariant
+			e.tick()
 			mod, all, written := f.loopModSet(b, be)
 			if all {
 				f.havocAll(st, reach, written)
@@ -472,6 +473,11 @@ func (e *Engine) assumeRange(reach string, v Val) {
 		}
 	case *types.Slice:
 		e.assume(reach, e.wfSlice(v.term))
+		e.assume(reach, e.locBound(fmt.Sprintf("(s_base %s)", v.term)))
+	case *types.Pointer:
+		if v.term != interiorPtr {
+			e.assume(reach, e.locBound(v.term))
+		}
 	}
 }
 
@@ -658,13 +664,14 @@ func (f *frame) loopModSet(h *ssa.BasicBlock, be map[[2]int]bool) (map[string]*m
 							case a == "*":
 								all = true
 							case strings.HasPrefix(a, "H_") || strings.HasPrefix(a, "HA_"):
-								if !e.knownHeap(a) {
+								ca, ok := e.canonHeap(a)
+								if !ok {
 									panic("assigns: unknown heap " + a)
 								}
-								if mod[a] == nil {
-									mod[a] = &modInfo{cells: map[string]*cellMod{}}
+								if mod[ca] == nil {
+									mod[ca] = &modInfo{cells: map[string]*cellMod{}}
 								}
-								mod[a].whole = true
+								mod[ca].whole = true
 							default:
 								pn, fld := a, ""
 								if strings.HasPrefix(a, "*") {
@@ -962,6 +969,12 @@ func (f *frame) runBlock(b *ssa.BasicBlock, st *State, be map[[2]int]bool, loopO
 			case *types.Array:
 				f.nopanic("index", "", reach, e.idxLt(it, e.idxLit(xt.Len())))
 				f.vals[v] = Val{term: e.define(v.Name(), e.sc.sortOf(v.Type()), fmt.Sprintf("(select %s %s)", x.term, it)), typ: v.Type()}
+			case *types.Basic:
+				if !isString(x.typ) {
+					panic("Index on " + v.X.Type().String())
+				}
+				f.nopanic("index", "", reach, e.idxLt(it, fmt.Sprintf("(s_len %s)", x.term)))
+				f.vals[v] = Val{term: e.define(v.Name(), e.sc.sortOf(v.Type()), e.strAt(x.term, it)), typ: v.Type()}
 			default:
 				panic("Index on " + v.X.Type().String())
 			}
